@@ -66,7 +66,7 @@ def parse_diagnostics(stderr, unit_file):
     return blocks
 
 
-def run_unit(repo, overlay_path, scratch, threads=8, rlimit=None, extra_args=(), expand_errors=True):
+def run_unit(repo, overlay_path, scratch, threads=8, rlimit=None, extra_args=(), helpers=None):
     unit = os.path.splitext(os.path.basename(overlay_path))[0]
     os.makedirs(scratch, exist_ok=True)
     unit_file = os.path.join(scratch, unit + "_unit.rs")
@@ -82,7 +82,7 @@ def run_unit(repo, overlay_path, scratch, threads=8, rlimit=None, extra_args=(),
         res.update(status="undecided", reason="extraction failed: %r" % (e,))
         return res
     res["report"] = report
-    flagged = extract.lint_overlay(overlay_path)
+    flagged = extract.lint_overlay(overlay_path, helpers)
     res["lint"] = flagged
     if flagged:
         res.update(status="undecided", reason="overlay lint: an annotation contains executable text (%s: %s)" % flagged[0])
